@@ -658,55 +658,64 @@ fn gen_weights(rng: &mut Rng, dims: &[usize], shape: usize) -> Vec<i64> {
 }
 
 fn run_rcb_case(ctx: &mut Ctx, t: usize, float: bool, dims: &[usize], iter: usize, ws: &[i64]) {
-    let glen: usize = dims.iter().product();
-    let op = fmt_rcb(t, float, dims, iter, glen, ws);
+    let op = rcb_op(t, float, dims, iter, ws);
     run_op(ctx, &op);
 }
 
+fn rcb_op(t: usize, float: bool, dims: &[usize], iter: usize, ws: &[i64]) -> String {
+    fmt_rcb(t, float, dims, iter, dims.iter().product(), ws)
+}
+
 fn fixed_cases(ctx: &mut Ctx) {
-    // D4 witness: a single-threaded pool used to spin for ever (one chunk, no progress)
-    let before = ctx.ops.len();
-    run_rcb_case(ctx, 1, false, &[4, 4], 2, &[1; 16]);
-    run_op(ctx, &fmt_med(1, false, 16, &[4, 4, 4, 4]));
+    let mut ops: Vec<String> = vec![];
+    // D4 witnesses: a single-threaded pool used to spin for ever (one chunk, no progress)
+    ops.push(rcb_op(1, false, &[4, 4], 2, &[1; 16]));
+    ops.push(rcb_op(1, false, &[2, 2], 1, &[1; 4]));
+    ops.push(fmt_med(1, false, 16, &[4, 4, 4, 4]));
     for t in [1, 2, 3] {
         // 1x1 and 1x1x1 grids
         for iter in 0..=3 {
             for w in [0, 1, 7] {
-                run_rcb_case(ctx, t, false, &[1, 1], iter, &[w]);
-                run_rcb_case(ctx, t, true, &[1, 1], iter, &[w]);
-                run_rcb_case(ctx, t, false, &[1, 1, 1], iter, &[w]);
+                ops.push(rcb_op(t, false, &[1, 1], iter, &[w]));
+                ops.push(rcb_op(t, true, &[1, 1], iter, &[w]));
+                ops.push(rcb_op(t, false, &[1, 1, 1], iter, &[w]));
             }
         }
         // all-zero weights
         for iter in 0..=3 {
-            run_rcb_case(ctx, t, false, &[3, 3], iter, &[0; 9]);
-            run_rcb_case(ctx, t, true, &[4, 2], iter, &[0; 8]);
-            run_rcb_case(ctx, t, false, &[2, 2, 2], iter, &[0; 8]);
-            run_rcb_case(ctx, t, false, &[1, 5], iter, &[0; 5]);
+            ops.push(rcb_op(t, false, &[3, 3], iter, &[0; 9]));
+            ops.push(rcb_op(t, true, &[4, 2], iter, &[0; 8]));
+            ops.push(rcb_op(t, false, &[2, 2, 2], iter, &[0; 8]));
+            ops.push(rcb_op(t, false, &[1, 5], iter, &[0; 5]));
         }
         // more iterations than the grid has cells to separate
-        run_rcb_case(ctx, t, false, &[2, 1], 6, &[1, 1]);
-        run_rcb_case(ctx, t, false, &[1, 3], 6, &[1, 1, 1]);
-        run_rcb_case(ctx, t, true, &[1, 3], 6, &[2, 0, 1]);
-        run_rcb_case(ctx, t, false, &[2, 2, 2], 6, &[1; 8]);
-        run_rcb_case(ctx, t, false, &[3, 1, 2], 6, &[1, 2, 3, 4, 5, 6]);
+        ops.push(rcb_op(t, false, &[2, 1], 6, &[1, 1]));
+        ops.push(rcb_op(t, false, &[1, 3], 6, &[1, 1, 1]));
+        ops.push(rcb_op(t, true, &[1, 3], 6, &[2, 0, 1]));
+        ops.push(rcb_op(t, false, &[2, 2, 2], 6, &[1; 8]));
+        ops.push(rcb_op(t, false, &[3, 1, 2], 6, &[1, 2, 3, 4, 5, 6]));
         // the repository's own examples (2x2 and 4x4x4 unit weights)
-        run_rcb_case(ctx, t, true, &[2, 2], 2, &[1; 4]);
-        run_rcb_case(ctx, t, true, &[4, 4, 4], 3, &[1; 64]);
+        ops.push(rcb_op(t, true, &[2, 2], 2, &[1; 4]));
+        ops.push(rcb_op(t, true, &[4, 4, 4], 3, &[1; 64]));
     }
     // D4-like shapes at every pool size: long axes of equal slabs
     for &t in &THREADS {
-        run_rcb_case(ctx, t, false, &[4, 4], 2, &[1; 16]);
-        run_rcb_case(ctx, t, false, &[1, 16], 4, &[1; 16]);
-        run_rcb_case(ctx, t, false, &[16, 1], 4, &[1; 16]);
-        run_op(ctx, &fmt_med(t, false, 64, &[1; 64]));
-        run_op(ctx, &fmt_med(t, true, 64, &[1; 64]));
-        run_op(ctx, &fmt_med(t, false, 0, &[]));
-        run_op(ctx, &fmt_med(t, false, 5, &[5]));
-        run_op(ctx, &fmt_med(t, false, 3, &[2, 1]));
+        ops.push(rcb_op(t, false, &[4, 4], 2, &[1; 16]));
+        ops.push(rcb_op(t, false, &[1, 16], 4, &[1; 16]));
+        ops.push(rcb_op(t, false, &[16, 1], 4, &[1; 16]));
+        ops.push(fmt_med(t, false, 64, &[1; 64]));
+        ops.push(fmt_med(t, true, 64, &[1; 64]));
+        ops.push(fmt_med(t, false, 0, &[]));
+        ops.push(fmt_med(t, false, 5, &[5]));
+        ops.push(fmt_med(t, false, 3, &[2, 1]));
     }
-    let n = (ctx.ops.len() - before) as u64;
-    *ctx.hist.entry("fixed_cases".into()).or_insert(0) += n;
+    for op in ops {
+        if too_many_hangs(ctx) {
+            return;
+        }
+        ctx.count("fixed_cases");
+        run_op(ctx, &op);
+    }
 }
 
 /// Next vector over `{0,1,2}` in odometer order; `false` after the last one.
@@ -812,19 +821,28 @@ fn exhaustive(ctx: &mut Ctx) {
             }
         }
     }
-    ctx.notes.push(format!(
+    let mut note = format!(
         "exhaustive sub-space: 2-D grids [{}] x EVERY weight vector over {{0,1,2}} x iter_count 0..=3 x pool sizes {{1,2,3}} with i64 weights, \
-         and again with f64 weights for every vector on grids of at most 4 cells / every 9th vector on larger ones ({} cases). \
-         Grids [{}]: EVERY weight vector over {{0,1,2}}, each with one (iter_count, pool size) drawn from 0..=3 x {{1,2,3}} ({} cases). \
-         Grids [{}]: {} random vectors over {{0,1,2}} each, drawn (iter_count, pool size), 1/8 of them f64 ({} cases).",
+         and again with f64 weights for every vector on grids of at most 4 cells / every 9th vector on larger ones ({} cases).",
         full.join(" "),
-        n_full,
-        onec.join(" "),
-        n_onec,
-        sampled.join(" "),
-        per_grid,
-        n_sampled
-    ));
+        n_full
+    );
+    if !onec.is_empty() {
+        note.push_str(&format!(
+            " Grids [{}]: EVERY weight vector over {{0,1,2}}, each with one (iter_count, pool size) drawn from 0..=3 x {{1,2,3}} ({} cases).",
+            onec.join(" "),
+            n_onec
+        ));
+    }
+    if !sampled.is_empty() {
+        note.push_str(&format!(
+            " Grids [{}]: {} random vectors over {{0,1,2}} each, drawn (iter_count, pool size), 1/8 of them f64 ({} cases).",
+            sampled.join(" "),
+            per_grid,
+            n_sampled
+        ));
+    }
+    ctx.notes.push(note);
 }
 
 /// A side length in `1..=max`, biased toward small values.
